@@ -11,6 +11,14 @@ CLAIMS = {
   'text': 'Machine-checked theorems (closed under the global context) that enclose/intersect/union/minus/contains/intersects/adjacent of the Gallina model of span.rs are byte-interval algebra for ANY four positions of a chain, and that the canonical positions of any text form a chain (unbounded in text, positions, metrics); plus a correspondence run that executes the extracted model and the real Span code on every pair of spans of every small text and diffs all results, with an independent python byte-set oracle on the implementation\'s answers.',
   'ref': 'DESIGN.md 4 C17', 'note': 'Modelled, not verified: span.rs Span/Few operations. Correspondence exhaustive over texts up to the tier bound.',
   'technique': 'Rocq proof (case analysis over a position chain) + extracted-model/implementation correspondence'},
+ 'C18': {
+  'text': 'Machine-checked theorems, for every unit list (text), every line ending (LF/CR/CRLF), tab width >= 1 and every start offset: widen_to_line of a canonical span returns exactly the span from the nearest line start at or before its start to the nearest line end at or after its end (with those indices characterised declaratively); split_lines yields exactly the declaratively defined pieces - in order, one per line touched, each within one line and free of terminators, their texts re-joining with the line ending to the span\'s text; len() before every next() and after exhaustion is the number of pieces still to come (L, L-1, ..., 0, 0), without panic. Correspondence: extracted model vs. real Span/SplitLines on every canonical span of every text up to the tier bound, len() sampled around every next(); a python oracle computes the expected partition independently.',
+  'ref': 'DESIGN.md 4 C18', 'note': 'Modelled, not verified: span.rs widen_to_line/split_lines/SplitLines, source.rs line wrappers, metrics.rs. Hypotheses: tab width >= 1, characters of 1..4 bytes, span endpoints canonical.',
+  'technique': 'Rocq proof (induction over the unit list / iterator states) + extracted-model/implementation correspondence'},
+ 'C20': {
+  'text': 'Machine-checked theorems for a source with ANY start position: clipped() of a canonical span yields exactly the parent\'s bytes under the span with the span\'s start as start position; the positions a window reports are the parent\'s positions (gpos_window); start/end/full_span are those of the span; next/previous/line_start/line_end/next_line_start/previous_line_end/is_line_break at every position inside return the neighbouring / line-bounding positions of the window\'s own units, which are the parent\'s clamped to the window (min/max lemmas); widen/split (C18 theorems) hold for any start position. Owned vs. borrowed copies are identical values in the model; the real to_owned()/borrow() round trip is compared by the harness on every window.',
+  'ref': 'DESIGN.md 4 C20', 'note': 'Modelled, not verified: source.rs (SourceText with offset, clipped, every wrapper), position.rs with_byte_offset. Page::shifted/shift are no longer used by the library after the end_position repair and are not modelled. Owned/borrowed equality is by correspondence only.',
+  'technique': 'Rocq proof (positions measured from an arbitrary start position; window = sub-list of units) + correspondence'},
  'C19': {
   'text': 'Machine-checked theorems: for every text, line-ending style, tab width >= 1 and every canonical base, next/previous are mutual inverses, line_start/line_end/next_line_start/previous_line_end/is_line_break return the canonical positions of the declaratively defined line boundaries, start/end measurement return the first/last canonical position, position_after_str returns Some(canonical position after the match) exactly when the pattern is the text of whole units at the base and None otherwise, and the predicate advances are characterised likewise; every result is Ok, i.e. no panic or divergence (by induction over the unit list; no bound on the text). The model is tied to metrics.rs by running both on every canonical base of exhaustive small and random longer texts; a python re-implementation of the specification re-checks the implementation\'s answers.',
   'ref': 'DESIGN.md 4 C19', 'note': 'Modelled, not verified: metrics.rs (every public fn of ColumnMetrics) and the zero-offset SourceText wrappers. unicode-width is an oracle (table compared at start-up). Hypothesis of every theorem: tab width >= 1, characters of 1..4 bytes.',
